@@ -8,7 +8,7 @@ import (
 )
 
 //zzv:bound F1 = one real control cycle (UpdateFanSpeed) for each fan backend (hwmon/file/cmd) with the curve quantified at its interface (any int64 value, error or none; F3 ties the real curves to that), from any controller state satisfying C01's invariant, with a fault injected at every single site and every pair of sites among {PWM read, PWM write, mode read, mode write, RPM read, curve evaluation}; read faults are missing file / unreadable / garbage, write faults are error / silently ignored: the cycle never panics, never calls ui.Fatal, and re-establishes the invariant; so the post-state of a faulty cycle is a legal pre-state of the next one and single faults, pairs and longer fault schedules are all covered by the one step
-//zzv:bound F3 = real Evaluate of linear / PID / maximum-function curves over a hwmon / file / cmd sensor whose file is missing, garbage, unreadable or fine, smoothed value any float64: no panic
+//zzv:bound F3 = real Evaluate of linear / PID / maximum-function (PID + linear member) curves and of every function type over two PID members, over a hwmon / file / cmd sensor whose file is missing, garbage, unreadable or fine, smoothed value any float64: no panic
 //zzv:bound F2 = one real RPM poll (measureRpm) under the same faults: no panic
 //zzv:outside what the process does after a Go panic; panic(err) in the RunDaemon actors; os.Exit paths; write faults of cmd fans (their commands run real processes in replays)
 //zzv:inductive ZZ_C09_F1_CycleWithFaults
@@ -44,8 +44,15 @@ func zzFaultySensorCurve(sensKind, curveKind int) curves.SpeedCurve {
 		return lin
 	case 1:
 		return pid
-	default:
+	case 2:
 		fn, _ := curves.NewSpeedCurve(configuration.CurveConfig{ID: "zzfun", Function: &configuration.FunctionCurveConfig{Type: configuration.FunctionMaximum, Curves: []string{"zzpid", "zzlin"}}})
+		return fn
+	default:
+		// every function type over members that all depend on the (possibly failing) sensor
+		pid2, _ := curves.NewSpeedCurve(configuration.CurveConfig{ID: "zzpid2", PID: &configuration.PidCurveConfig{Sensor: "zzsensor", SetPoint: 50, P: -0.05, I: -0.005, D: -0.005}})
+		curves.RegisterSpeedCurve(pid2)
+		types := []string{configuration.FunctionSum, configuration.FunctionDifference, configuration.FunctionAverage, configuration.FunctionDelta, configuration.FunctionMinimum, configuration.FunctionMaximum}
+		fn, _ := curves.NewSpeedCurve(configuration.CurveConfig{ID: "zzfun2", Function: &configuration.FunctionCurveConfig{Type: types[zzv.Choice("functionType", len(types))], Curves: []string{"zzpid", "zzpid2"}}})
 		return fn
 	}
 }
@@ -131,7 +138,7 @@ func ZZ_C09_F1_CycleWithFaults() {
 
 // every real curve kind over every sensor backend with a faulty sensor: Evaluate never panics
 func ZZ_C09_F3_CurvesOverFaultySensors() {
-	curve := zzFaultySensorCurve(zzv.Choice("sensorKind", 3), zzv.Choice("curveKind", 3))
+	curve := zzFaultySensorCurve(zzv.Choice("sensorKind", 3), zzv.Choice("curveKind", 4))
 	zzv.ClockStep(zzRange("dtSec", 0, 3600), zzRange("dtMs", 0, 999))
 	_, err := curve.Evaluate()
 	zzv.RecordB("error", err != nil)
